@@ -31,6 +31,34 @@ def parsePair (s : String) : Option (Nat × Int) :=
   | [c, p] => do pure ((← c.toNat?), (← p.toInt?))
   | _ => none
 
+/-- `5=5,12^4`: persisted channel pts; `^` marks a channel whose access hash is learnt late. -/
+def parseStored (s : String) : Option (List (Nat × Int) × List Nat) :=
+  if s == "_" then some ([], [])
+  else do
+    let items ← (s.splitOn ",").mapM fun it =>
+      match it.splitOn "=" with
+      | [c, p] => do pure ((← c.toNat?), (← p.toInt?), false)
+      | _ => match it.splitOn "^" with
+        | [c, p] => do pure ((← c.toNat?), (← p.toInt?), true)
+        | _ => none
+    pure (items.map (fun x => (x.1, x.2.1)), (items.filter (·.2.2)).map (·.1))
+
+/-- `11~7`: channel 11 has no stored state and will first be contacted at position 7; `11^7`: the
+same for a channel whose access hash is learnt late; `11!`: a channel without stored state whose
+access hash is unknown and which is never contacted with a known one (it never becomes a sequence). -/
+def parseCreated (s : String) : Option (List (Nat × Int) × List Nat) :=
+  if s == "_" then some ([], [])
+  else do
+    let items ← (s.splitOn ",").mapM fun it =>
+      match it.splitOn "~" with
+      | [c, p] => do pure ((← c.toNat?), some (← p.toInt?), false)
+      | _ => match it.splitOn "^" with
+        | [c, p] => do pure ((← c.toNat?), some (← p.toInt?), true)
+        | _ => match it.splitOn "!" with
+          | [c, ""] => do pure ((← c.toNat?), none, true)
+          | _ => none
+    pure (items.filterMap (fun x => x.2.1.map fun p => (x.1, p)), (items.filter (·.2.2)).map (·.1))
+
 def parseAction (s : String) : Option Action :=
   match s.splitOn ":" with
   | ["e", n] => do pure (.emit (← n.toNat?))
@@ -46,6 +74,7 @@ def parseAction (s : String) : Option Action :=
   | ["TL"] => some .tlNext
   | ["CTL", c] => do pure (.chTlNext (← c.toNat?))
   | ["ERR", k] => do pure (.failNext (← k.toNat?))
+  | ["K", c] => do pure (.known (← c.toNat?))
   | ["X", k, ids] => do pure (.extra (← k.toNat?) (← (ids.splitOn ",").mapM String.toNat?))
   | _ => none
 
@@ -104,43 +133,47 @@ def b2s (b : Bool) : String := if b then "1" else "0"
 persisted state the run started from. -/
 def checksOf (O : Orders) (log : List Entry) (p0 q0 : Int) (c0 : List (Nat × Int))
     (fp fq : Int) (fc : List (Nat × Int)) (m : Mgr) : String :=
-  let keys := seqKeys c0
+  -- `fc` here already includes the declared first contacts: every channel that is or becomes tracked
+  let keys := seqKeys fc
   let mk := mkOf log
-  let wf := scnOK log keys (initOf p0 q0 c0) && keys.all fun k =>
+  let wf := !m.bad && scnOK log keys (initOf p0 q0 c0) && keys.all fun k =>
     wfRun (applyCfgOf O mk k) (seqLog log k) { state := initOf fp fq fc k } (opsOf m.ops k)
   let sf := keys.all fun k => safe (seqLog log k) mk (initOf fp fq fc k) [] false (projSeq log k m.trace)
-  let cp := keys.all fun k => complete (seqLog log k) mk (initOf fp fq fc k) (projSeq log k m.trace)
+  -- completeness is claimed for sequences that have a worker (a stored channel whose access hash
+  -- never became known, or a channel that was never met, has none)
+  let cp := keys.all fun k => (m.getBox k).isNone || complete (seqLog log k) mk (initOf fp fq fc k) (projSeq log k m.trace)
   let rf := keys.all fun k =>
     decide (projSeq log k m.trace = (srun (applyCfgOf O mk k) { state := initOf fp fq fc k } (opsOf m.ops k)).2)
   s!"wf={b2s wf} safe={b2s sf} complete={b2s cp} ref={b2s rf}"
 
 def mgrHandle (O : Orders) (line : String) : String :=
   match words line with
-  | "mgr" :: p0 :: q0 :: c0 :: log :: acts =>
-    match p0.toInt?, q0.toInt?, parseList parsePair "," c0, parseList parseEntry "," log, acts.mapM parseAction with
-    | some p0, some q0, some c0, some log, some acts =>
-      let w : World := { log := log, p0 := p0, q0 := q0, c0 := c0 }
-      let m := (Mgr.start O w p0 q0 c0).runActions O acts
-      showTrace m.trace ++ " | " ++ checksOf O log p0 q0 c0 p0 q0 c0 m
-    | _, _, _, _, _ => "bad-op"
-  | "restart" :: fp :: fq :: fc :: p0 :: q0 :: c0 :: log :: acts =>
-    match fp.toInt?, fq.toInt?, parseList parsePair "," fc, p0.toInt?, q0.toInt?, parseList parsePair "," c0,
+  | "mgr" :: p0 :: q0 :: c0 :: fc :: cr :: log :: acts =>
+    match p0.toInt?, q0.toInt?, parseList parsePair "," c0, parseStored fc, parseCreated cr, parseList parseEntry "," log,
+        acts.mapM parseAction with
+    | some p0, some q0, some c0, some (fc, late), some (cr, late'), some log, some acts =>
+      let w : World := { log := log, p0 := p0, q0 := q0, c0 := c0, late := late ++ late', persisted := fc, cr := cr }
+      let m := (Mgr.start O w p0 q0 fc).runActions O acts
+      showTrace m.trace ++ " | " ++ checksOf O log p0 q0 c0 p0 q0 (fc ++ cr) m
+    | _, _, _, _, _, _, _ => "bad-op"
+  | "restart" :: fp :: fq :: fc :: cr :: p0 :: q0 :: c0 :: log :: acts =>
+    match fp.toInt?, fq.toInt?, parseStored fc, parseCreated cr, p0.toInt?, q0.toInt?, parseList parsePair "," c0,
         parseList parseEntry "," log, acts.mapM parseAction with
-    | some fp, some fq, some fc, some p0, some q0, some c0, some log, some acts =>
-      let w : World := { log := log, p0 := p0, q0 := q0, c0 := c0, emitted := log.length }
+    | some fp, some fq, some (fc, late), some (cr, late'), some p0, some q0, some c0, some log, some acts =>
+      let w : World := { log := log, p0 := p0, q0 := q0, c0 := c0, emitted := log.length, late := late ++ late', persisted := fc, cr := cr }
       let m := (Mgr.start O w fp fq fc).runActions O acts
-      showTrace m.trace ++ " | " ++ checksOf O log p0 q0 c0 fp fq fc m
-    | _, _, _, _, _, _, _, _ => "bad-op"
-  | "check" :: fp :: fq :: fc :: c0 :: log :: evs =>
+      showTrace m.trace ++ " | " ++ checksOf O log p0 q0 c0 fp fq (fc ++ cr) m
+    | _, _, _, _, _, _, _, _, _ => "bad-op"
+  | "check" :: fp :: fq :: fc :: cr :: c0 :: log :: evs =>
     -- the properties evaluated on a trace of the implementation
-    match fp.toInt?, fq.toInt?, parseList parsePair "," fc, parseList parsePair "," c0, parseList parseEntry "," log,
+    match fp.toInt?, fq.toInt?, parseStored fc, parseCreated cr, parseList parsePair "," c0, parseList parseEntry "," log,
         (evs.filter (· != "_")).mapM parseEvent with
-    | some fp, some fq, some fc, some c0, some log, some tr =>
-      let keys := seqKeys c0
-      let sf := keys.all fun k => safe (seqLog log k) (mkOf log) (initOf fp fq fc k) [] false (projSeq log k tr)
-      let cp := keys.all fun k => complete (seqLog log k) (mkOf log) (initOf fp fq fc k) (projSeq log k tr)
+    | some fp, some fq, some (fc, _), some (cr, _), some _, some log, some tr =>
+      let keys := seqKeys (fc ++ cr)
+      let sf := keys.all fun k => safe (seqLog log k) (mkOf log) (initOf fp fq (fc ++ cr) k) [] false (projSeq log k tr)
+      let cp := keys.all fun k => complete (seqLog log k) (mkOf log) (initOf fp fq (fc ++ cr) k) (projSeq log k tr)
       s!"safe={b2s sf} complete={b2s cp}"
-    | _, _, _, _, _, _ => "bad-op"
+    | _, _, _, _, _, _, _ => "bad-op"
   | _ => "bad-op"
 
 end TdModel.C02Core
